@@ -483,3 +483,59 @@ Proof.
   intros Hr. rewrite walk_is_spec. destruct (selected req ps); [|reflexivity].
   simpl. apply chain_unrequested. exact Hr.
 Qed.
+
+(* ---- an option that is already in the table (value or null) ------------- *)
+Lemma subnet_opts_present req p k t :
+  thas k t = true -> tget k (subnet_opts req p t) = tget k t.
+Proof.
+  intros Hp. unfold subnet_opts. destruct (p_subnet p) as [s|]; [|reflexivity].
+  set (t1 := if requested req 1 && negb (thas 1 t) then tset 1 (Some (be32 (netmask (snd s)))) t else t).
+  assert (A : tget k t1 = tget k t).
+  { subst t1. destruct (N.eq_dec k 1) as [->|Hne].
+    - rewrite Hp, Bool.andb_false_r. reflexivity.
+    - destruct (_ && _); [rewrite tget_tset_other by congruence|]; reflexivity. }
+  destruct (N.eq_dec k 28) as [->|Hne].
+  - assert (B : thas 28 t1 = true) by (unfold thas in *; rewrite A; exact Hp).
+    rewrite B, Bool.andb_false_r. exact A.
+  - destruct (requested req 28 && _); [rewrite tget_tset_other by congruence|]; exact A.
+Qed.
+
+Lemma chain_value_some k ch v : exists w, chain_value k ch (Some v) = Some w.
+Proof.
+  revert v. induction ch as [|p r IH]; intros v; [exists v; reflexivity|]. simpl.
+  destruct (last_for k (p_apply p)) as [w|]; apply IH.
+Qed.
+
+Lemma chain_value_get_present req k ch :
+  requested req k = true ->
+  forall resp v, tget k (rs_opts resp) = Some v ->
+  tget k (rs_opts (apply_chain req ch resp)) = chain_value k ch (Some v).
+Proof.
+  intros Hr. induction ch as [|p rest IH]; intros resp v Hv; [exact Hv|]. simpl.
+  set (r1 := {| rs_opts := apply_own req p (rs_opts resp); rs_addr := own_addr req p (rs_addr resp) |}).
+  assert (H1 : tget k (rs_opts r1) = Some (match last_for k (p_apply p) with Some w => w | None => v end)).
+  { subst r1. simpl. rewrite apply_own_get, Hr, Hv. destruct (last_for k (p_apply p)); reflexivity. }
+  pose proof (IH r1 _ H1) as H2.
+  rewrite subnet_opts_present.
+  - rewrite H2. destruct (last_for k (p_apply p)); reflexivity.
+  - unfold thas. rewrite H2. destruct (chain_value_some k rest (match last_for k (p_apply p) with Some w => w | None => v end)) as [w ->].
+    reflexivity.
+Qed.
+
+Lemma subnet_opts_sets_netmask req p s t :
+  p_subnet p = Some s -> requested req 1 = true -> tget 1 t = None ->
+  tget 1 (subnet_opts req p t) = Some (Some (be32 (netmask (snd s)))).
+Proof.
+  intros Hs Hr Hn. unfold subnet_opts. rewrite Hs, Hr. unfold thas. rewrite Hn. simpl.
+  destruct (requested req 28 && _); [rewrite tget_tset_other by discriminate|]; apply tget_tset_same.
+Qed.
+
+Lemma subnet_opts_sets_broadcast req p s t :
+  p_subnet p = Some s -> requested req 28 = true -> tget 28 t = None ->
+  tget 28 (subnet_opts req p t) = Some (Some (be32 (subnet_broadcast s))).
+Proof.
+  intros Hs Hr Hn. unfold subnet_opts. rewrite Hs, Hr.
+  assert (A : thas 28 (if requested req 1 && negb (thas 1 t) then tset 1 (Some (be32 (netmask (snd s)))) t else t) = false).
+  { unfold thas at 1. destruct (_ && _); [rewrite tget_tset_other by discriminate|]; rewrite Hn; reflexivity. }
+  rewrite A. simpl. apply tget_tset_same.
+Qed.
